@@ -93,6 +93,44 @@ impl Repl {
             (Unlimited, Unlimited) => Unlimited,
         }
     }
+    /// the (host, index) pairs of the replicas under a layout (documented semantics)
+    pub fn shape(self, l: &Layout) -> std::collections::BTreeSet<(u64, u64)> {
+        let cores = l.cores();
+        let mut s = std::collections::BTreeSet::new();
+        match self {
+            Repl::Unlimited => {
+                for (h, c) in cores.iter().enumerate() {
+                    for k in 0..*c {
+                        s.insert((h as u64, k));
+                    }
+                }
+            }
+            Repl::Limited(n) => {
+                let mut rem = n;
+                for (h, c) in cores.iter().enumerate() {
+                    let k = rem.min(*c);
+                    for i in 0..k {
+                        s.insert((h as u64, i));
+                    }
+                    rem -= k;
+                }
+            }
+            Repl::Host => {
+                if matches!(l, Layout::Local(_)) {
+                    s.insert((0, 0));
+                } else {
+                    for h in 0..cores.len() {
+                        s.insert((h as u64, 0));
+                    }
+                }
+            }
+            Repl::One => {
+                s.insert((0, 0));
+            }
+        }
+        s
+    }
+
     /// number of replicas under a layout (mirrors the documented semantics, not the code)
     pub fn count(self, l: &Layout) -> u64 {
         match (self, l) {
@@ -301,6 +339,13 @@ pub struct Scenario {
     pub steps: Vec<Step>,
     pub knobs: SimKnobs,
     pub crash: Option<CrashPlan>,
+    /// pure range-splitting cases checked next to the simulated job (C15):
+    /// (integer type, start, end, peers)
+    #[serde(default)]
+    pub range_cases: Vec<(u8, i128, i128, u64)>,
+    /// the client keeps the channel open this long (us) after its last burst (C18)
+    #[serde(default)]
+    pub client_grace_us: u64,
 }
 
 impl Scenario {
